@@ -536,11 +536,28 @@ def run_source(task):
         tag_b = b if not isinstance(b, str) else b
         if a != tag_b:
             res['problems'].append({'kind': 'correspondence', 'I': I, 'extra': {},
-                                    'text': 'subset(%r): implementation %s, model %s' % (I[:12], brief(a), brief(tag_b))})
+                                    'text': 'subset(%r): implementation %s, model %s%s' % (I[:12], brief(a), brief(tag_b), first_diff(m, a, tag_b))})
         if s != sorted(set(I)):
             res['problems'].append({'kind': 'correspondence', 'I': I, 'extra': {'spec': True},
                                     'text': 'Spec.sortedDistinct(%r) = %r' % (I[:12], s[:12])})
     return res
+
+
+def first_diff(m, a, b):
+    """Where two encoder inputs differ first (section.parameter), for the report."""
+    if isinstance(a, str) or isinstance(b, str):
+        return ''
+    try:
+        for si, (section, sa, sb) in enumerate(zip(m.sections, a, b)):
+            for p, va, vb in zip(section, sa, sb):
+                if va != vb:
+                    if p.type == 'template_data':
+                        return '; first difference at %d.%s: %d vs %d value lists' % (si, p.name, len(va), len(vb)) if len(va) != len(vb) else \
+                            '; first difference at %d.%s: value list %d' % (si, p.name, [x != y for x, y in zip(va, vb)].index(True))
+                    return '; first difference at %d.%s: %r vs %r' % (si, p.name, va, vb)
+    except Exception:
+        pass
+    return ''
 
 
 def brief(x):
@@ -581,11 +598,11 @@ def cli_cases(ctx, files):
         except Exception:
             continue
         n = m.n_subsets.value
-        if n >= 3 and len(picked) < 2 and (not picked or bool(m.is_compressed.value) != picked[0][3]):
+        if n >= 3 and len([q for q in picked if q[1] == '0,2']) < 2:
             picked.append((f, '0,2', n, bool(m.is_compressed.value)))
         elif n == 2 and not any(p[1] == '1,0' for p in picked):
             picked.append((f, '1,0', n, bool(m.is_compressed.value)))
-        if len(picked) >= 3:
+        if len(picked) >= 4:
             break
     if picked:
         picked.append((picked[0][0], '%d' % picked[0][2], picked[0][2], picked[0][3]))  # out of range by one
@@ -688,7 +705,7 @@ def run(ctx):
     tasks = [{'src': {'file': f}, 'seed': ctx.seed, 'tier': ctx.tier} for f in files]
     rng = ctx.rng('synth')
     bases = [f for f in files if os.path.getsize(f) <= (QUICK_MAX_BYTES if ctx.tier == 'quick' else 60000)]
-    n_synth = 120 if ctx.tier == 'quick' else 1200
+    n_synth = 120 if ctx.tier == 'quick' else 3000
     for k in range(n_synth):
         f = bases[k % len(bases)] if k < len(bases) else rng.choice(bases)
         tasks.append({'src': {'file': f, 'synth': '%d:%d:%d' % (ctx.seed, k, rng.randrange(10 ** 9))}, 'seed': ctx.seed, 'tier': ctx.tier})
